@@ -1,7 +1,6 @@
 import Yaql.Gen.SrcSeq
 import Yaql.Lemmas.PyPrelude
 import Yaql.Lemmas.PyLoops
-import Yaql.Props.SrcLimits
 /-!
 Equivalence of the definitions translated from the CURRENT yaql source (`Yaql.Gen.SrcSeq`, regenerated on every
 run by harness/py2lean.py) with the hand-written model - for all inputs.
@@ -16,14 +15,6 @@ open Yaql Yaql.Gen Yaql.Lemmas.PyLoops
 
 /-! ### no loop -/
 
-theorem take_while_src_eq (collection : List Value) (predicate : Value → Bool) :
-    SrcSeq.take_while collection predicate = Seq.takeWhile predicate collection := by
-  simp only [SrcSeq.take_while, Seq.takeWhile]
-
-theorem skip_while_src_eq (collection : List Value) (predicate : Value → Bool) :
-    SrcSeq.skip_while collection predicate = Seq.skipWhile predicate collection := by
-  simp only [SrcSeq.skip_while, Seq.skipWhile]
-
 theorem append_src_eq (collection args : List Value) :
     SrcSeq.append collection args = Seq.append collection args := by
   simp [SrcSeq.append, Seq.append]
@@ -37,16 +28,6 @@ theorem split_at_src_eq (collection : List Value) (index : Int) :
       = [(Seq.splitAt index collection).1, (Seq.splitAt index collection).2] := by
   simp only [SrcSeq.split_at, Seq.splitAt, Py.slice, Py.hiBound, Py.loBound, clampIdx_eq_seq,
     List.drop_zero, List.take_length]
-
-theorem skip_src_eq (collection : List Value) (count : Int) :
-    SrcSeq.skip collection count
-      = if Py.isliceOk count then .ok (Seq.skip count.toNat collection) else .error .valueError := by
-  simp [SrcSeq.skip, Py.islice, Py.isliceStopOnly, Py.isliceOkOpt, Seq.skip]
-
-theorem limit_src_eq (collection : List Value) (count : Int) :
-    SrcSeq.limit collection count
-      = if Py.isliceOk count then .ok (Seq.take count.toNat collection) else .error .valueError := by
-  cases h : Py.isliceOk count <;> simp [SrcSeq.limit, Py.islice, Py.isliceOkOpt, Seq.take, h]
 
 theorem list_insert_src_eq (collection : List Value) (position : Int) (value : Value) :
     SrcSeq.list_insert collection position value
@@ -156,24 +137,6 @@ theorem any_src_eq (collection : List Value) (predicate : Option (Value → Bool
     rw [any_go p _ (by py_body)]
     simp only [Seq.any_]
     cases List.any collection p <;> simp
-
-theorem list_by_int_src_eq (sizes : Limits.SizeCfg) (kind : Limits.SeqK) (left : List Value) (right engine : Int) :
-    SrcSeq.list_by_int sizes kind left right engine
-      = if Limits.listByIntCheck sizes engine kind left.length right then .ok (Seq.listByInt left right)
-        else .error (.other 1) := by
-  unfold SrcSeq.list_by_int Limits.listByIntCheck
-  rw [SrcLimits.limit_memory_usage_src_eq]
-  first
-    | (cases Limits.limitMemory engine [(-right + 1, sizes.tupleHdr), (right, sizes.seqSize kind left.length)] <;>
-        simp [Py.repeat_, Seq.listByInt]; done)
-    | grind [Py.repeat_, Seq.listByInt]
-
-theorem int_by_list_src_eq (sizes : Limits.SizeCfg) (kind : Limits.SeqK) (left : Int) (right : List Value) (engine : Int) :
-    SrcSeq.int_by_list sizes kind left right engine
-      = if Limits.listByIntCheck sizes engine kind right.length left then .ok (Seq.listByInt right left)
-        else .error (.other 1) := by
-  unfold SrcSeq.int_by_list
-  exact list_by_int_src_eq ..
 
 /-! ### delete / replace -/
 
